@@ -70,7 +70,7 @@ def make(name):
     if name == 'line':
         return R.LinePixelRegion(c(41.0, 52.0), c(56.5, 64.25), meta=m(text='ln'), visual=v(color='magenta'))
     if name == 'text':
-        return R.TextPixelRegion(c(46.0, 48.0), 'some text', meta=m(tag=['lbl']), visual=v(color='white', fontsize=12))
+        return R.TextPixelRegion(c(46.0, 48.0), 'some text', meta=m(tag=['lbl']), visual=v(color='white', fontsize=12, rotation=15.0))
     if name == 'compound':
         return R.CompoundPixelRegion(make('circle'), make('rectangle'), operator.or_, meta=m(text='cmp'), visual=v(color='red'))
     if name == 'sky_circle':
@@ -96,7 +96,7 @@ def make(name):
     if name == 'sky_line':
         return R.LineSkyRegion(s(39.996, 19.997), s(40.006, 20.005), meta=m(text='sl'))
     if name == 'sky_text':
-        return R.TextSkyRegion(s(40.0, 20.007), 'sky text', meta=m(tag=['x']), visual=v(color='white'))
+        return R.TextSkyRegion(s(40.0, 20.007), 'sky text', meta=m(tag=['x']), visual=v(color='white', rotation=30.0))
     if name == 'sky_compound':
         return R.CompoundSkyRegion(make('sky_circle'), make('sky_rectangle'), operator.and_, meta=m(text='scmp'), visual=v(color='blue'))
     raise KeyError(name)
